@@ -466,7 +466,7 @@ pub fn generate(tier: &str, seed: u64) -> Vec<Rec> {
             1 | 3 => { let h = rng.range(0, n as i64) as usize; (h, h.max(1)) }
             _ => { let divs: Vec<usize> = (1..=n).filter(|d| n % d == 0).collect(); let d = rng.pick(&divs); (d, n / d) }
         };
-        let bmax = if be <= 2 { (51 - log2_ceil(hw)).min(50) } else { 52 };
+        let bmax = if be <= 2 { (50 - log2_ceil(hw)).min(50) } else { 52 };
         let b = rng.range(1, bmax as i64) as usize;
         let size = rng.range(1, 4) as usize;
         let nk = rng.range(1, (size * b) as i64) as usize;
@@ -501,7 +501,7 @@ pub fn generate(tier: &str, seed: u64) -> Vec<Rec> {
             _ => { let divs: Vec<usize> = (1..=n).filter(|d| n % d == 0).collect(); let d = rng.pick(&divs); (d, n / d) }
         };
         let bmin = if kind >= 3 { log2_ceil(n) + 2 } else { 2 };
-        let bmax = if be <= 2 { (51 - log2_ceil(hw)).min(50) } else { 52 };
+        let bmax = if be <= 2 { (50 - log2_ceil(hw)).min(50) } else { 52 };
         let b = rng.range(bmin as i64, bmax as i64) as usize;
         let lwe_key = code == 6004 && kind >= 5;
         let brk = code == 6005 && kind == 1;
